@@ -86,6 +86,24 @@ pub fn gen(tier: &str, seed: u64) -> Gen {
         }
     }
     fams.push(("integer operands just outside the i64 range in every index position; string map / equal -nocase over characters whose case forms differ in length, at the end of the string".to_string(), nx, true));
+    // U+03A3: its lower-case form depends on its context (final sigma) in str::to_lowercase
+    let sig = ["\u{3a3}", "a", "'", " ", "\u{391}", "\u{301}"];
+    let sig_strs: Vec<String> = all_strings(&sig, if thorough { 5 } else { 4 }).into_iter().filter(|x| x.contains('\u{3a3}')).collect();
+    let sig_keys = ["\u{3a3}", "a\u{3a3}", "\u{391}\u{3a3}", "\u{3a3}a", "\u{3c3}", "\u{3c2}", "a\u{3c2}", "\u{3a3}'", "\u{3a3}\u{3a3}"];
+    let mut ns = 0;
+    for st in &sig_strs {
+        cases.push(cmd(vec![s("string"), s("tolower"), st.clone()]));
+        cases.push(cmd(vec![s("string"), s("toupper"), st.clone()]));
+        ns += 2;
+        for k in &sig_keys {
+            let kv = Value::from(vec![Value::from(*k), Value::from("x")]).as_str().to_string();
+            cases.push(cmd(vec![s("string"), s("map"), s("-nocase"), kv, st.clone()]));
+            cases.push(cmd(vec![s("string"), s("equal"), s("-nocase"), s(k), st.clone()]));
+            cases.push(cmd(vec![s("string"), s("compare"), s("-nocase"), st.clone(), s(k)]));
+            ns += 3;
+        }
+    }
+    fams.push(("capital sigma (lower-cased by context: final sigma after a cased letter, case-ignorable characters skipped) in tolower / toupper / map -nocase / equal -nocase / compare -nocase: every string with a sigma over 6 characters x 9 keys".to_string(), ns, thorough));
     let per = if thorough { 60_000 } else { 1200 };
     let mut m = 0;
     for _ in 0..per {
